@@ -37,6 +37,8 @@ func c12(c *Ctx) {
 	c01R11(c)
 	ruleMakeThenAppend(c, "C12.R6", fns, "configuration entries (routes, addresses, interfaces) handed from the daemon to the plugin")
 	c12R8(c)
+	// shared: the plugin takes the default-route flag from the daemon as it is (C13.R14)
+	c13R14(c)
 	ruleRoleMismatch(c, "C12.R9", "the whole module (gateway, mask, address and CIDR travel as strings through the factories)")
 }
 
